@@ -167,10 +167,31 @@ pub fn check(case: &Case, l: &mut Local) -> Verdict {
     Verdict::Pass { nontrivial: matched && (fl.i || t.backref || t.named || (t.class && case.hay.len() >= 8)) }
 }
 
+fn gen_small(src: &mut Src, _t: Tier) -> Case {
+    let v = super::c01::small_slice(true);
+    v[(src.raw() as usize).min(v.len() - 1)].clone()
+}
+
+/// a sample of the small-pattern grammar of C01 (b spelled as e-acute) on eight haystacks over {a, e-acute}
+fn check_small(case: &Case, l: &mut Local) -> Verdict {
+    let pat = respell_b(&case.pat, 0xE9);
+    let mut nontrivial = false;
+    for (k, h) in ["", "a", "é", "aé", "éa", "aaé", "éaé", "aéaa"].iter().enumerate() {
+        let c = Case { pat: pat.clone(), hay: h.to_string(), start: 0, flags: if k % 2 == 0 { String::new() } else { "u".into() }, x: json!({ "template": "[$0|$1]" }), ..case.clone() };
+        match check(&c, l) {
+            Verdict::Fail(m) => return Verdict::Fail(format!("/{}/ on \"{}\": {}", show(&pat), h, m)),
+            Verdict::Pass { nontrivial: n } => nontrivial |= n,
+            _ => {}
+        }
+    }
+    Verdict::Pass { nontrivial }
+}
+
+pub static VX: Variant = Variant { name: "small_pattern_sample", choice_len: 1, gen: gen_small, check: check_small };
 pub static V: Variant = Variant { name: "six_configurations", choice_len: 400, gen, check };
 
 pub fn variants() -> Vec<&'static Variant> {
-    vec![&V]
+    vec![&V, &VX]
 }
 
 pub fn run(ctx: &Ctx) -> i32 {
@@ -181,10 +202,14 @@ pub fn run(ctx: &Ctx) -> i32 {
             return 2;
         }
     }
+    let slice = super::c01::small_slice(true);
+    let step = if ctx.tier == Tier::Thorough { 2 } else { 24 };
+    let part: Vec<Case> = slice.iter().enumerate().filter(|(i, _)| i % step == 0).map(|(_, c)| c.clone()).collect();
+    ctx.run_list(&VX, &part);
     ctx.run_variant(&V, ctx.scale(150_000, 2_500_000));
     ctx.finish(
         "exploration",
-        "one generated case (pattern as code points incl. uncompilable token soup, flags, haystack, start, replacement template) is answered by six runner processes built from the current tree with regress features: default | index-positions | prohibit-unsafe | index-positions+prohibit-unsafe | utf16 | --no-default-features alloc,backend-pikevm. Each prints a canonical line (compile verdict with and without the optimizer, find_from and PikeVM and find_from_ascii match sequences with captures, replace_all output, named groups); all must be byte-identical to the default runner's, and a runner that dies or panics where the default does not is a violation (it means the default build was in UB there). Generators are biased to the cfg!() branches: legacy and unicode case-insensitivity, bracket prefilters on haystacks >= 9 bytes (align_to path), backreferences, named groups. Non-trivial = a match and (i flag, or backreference, or named group, or bracket with a long haystack).",
+        "every 24th (thorough: every 2nd) pattern of the small-pattern grammar of C01, b spelled as e-acute, on eight haystacks over {a, e-acute}; one generated case (pattern as code points incl. uncompilable token soup, flags, haystack, start, replacement template) is answered by six runner processes built from the current tree with regress features: default | index-positions | prohibit-unsafe | index-positions+prohibit-unsafe | utf16 | --no-default-features alloc,backend-pikevm. Each prints a canonical line (compile verdict with and without the optimizer, find_from and PikeVM and find_from_ascii match sequences with captures, replace_all output, named groups); all must be byte-identical to the default runner's, and a runner that dies or panics where the default does not is a violation (it means the default build was in UB there). Generators are biased to the cfg!() branches: legacy and unicode case-insensitivity, bracket prefilters on haystacks >= 9 bytes (align_to path), backreferences, named groups. Non-trivial = a match and (i flag, or backreference, or named group, or bracket with a long haystack).",
         &["runners use only the public API (no hooks); cases are pre-screened with the fuel hook in the harness process", "the policy question whether prohibit-unsafe really compiles out all unsafe code is unobservable by results and out of scope"],
     )
 }
